@@ -61,10 +61,15 @@ def _check_batch(ctx, pairs, ref, hyp, eos, include_eos, cost, tier, tag, module
                      "batch_first": batch_first, "cost": cost, "batching": tag}
         for api in (("functional", "module") if modules else ("functional",)):
             try:
+                r0, h0 = r_in.clone(), h_in.clone()
                 if api == "functional":
                     out = F.error_rate(r_in, h_in, warn=False, **kw).tolist()
                 else:
-                    out = M.ErrorRate(warn=False, **kw)(r_in, h_in).tolist()
+                    mod = M.ErrorRate(warn=False, **kw)
+                    mod(h_in.flip(0), r_in.flip(0))  # one module object, an unrelated call first
+                    out = mod(r_in, h_in).tolist()
+                if not (torch.equal(r0, r_in) and torch.equal(h0, h_in)):
+                    raise AssertionError("argument modified in place")
                 err = None
             except Exception as e:
                 err = e
